@@ -54,15 +54,28 @@
     Not proved here: operations outside [covered] (ForceBackup; operations
     whose names are not resolved or that follow a final symlink, D14; Rename
     of a non-empty directory; Remove/RemoveAll of the root) and runs with a
-    fault plan (the laws speak about worlds without faults). *)
+    fault plan (the laws speak about worlds without faults).
+
+    The law-level theorems take two more parameters than the laws had before
+    the documented layering was added: [hid] (view paths at or below a
+    location the base hides, HiddenFS) and [anc] (the proper ancestors of such
+    a location); for a base that hides nothing both are [nohid] and nothing
+    changes.  Theorems that start from an arbitrary state satisfying the
+    invariant and run Rollback ask for [loc_ok hid anc B0] in addition: the
+    baseline shows nothing hidden and shows the ancestors of the hidden
+    locations as directories ([loc_ok_nohid] when nothing is hidden; a
+    consequence of the laws for the base view of an [initial] state).
+    [C02_instant_documented], [C02_instant_rollback_documented] (end of the
+    file): the same, closed, for the documented layering (backup location
+    inside the base tree, hidden by HiddenFS: Proofs/LawsHidden*.v). *)
 From stdpp Require Import gmap.
 From BFS Require Import Spec.Always Spec.ViewOsfs.
 From BFS Require Import Proofs.LawsOsfsBase Proofs.LawsOsfs.
 From BFS Require Import Proofs.AlwaysLib Proofs.AlwaysTry Proofs.AlwaysRollback Proofs.LawsOsfsCrash.
 
 Theorem C02_instant_try_backup :
-  forall base backup Vb Vk tnb tnk accb acck rhb rhk whb whk B0,
-  base_laws base Vb Vk tnb accb rhb whb -> backup_laws backup Vb Vk tnk acck rhk whk ->
+  forall base backup Vb Vk tnb tnk accb acck rhb rhk whb whk hid anc B0,
+  base_laws base Vb Vk tnb accb rhb whb hid anc -> backup_laws backup Vb Vk tnk acck rhk whk ->
   api_crash_laws base Vb -> api_crash_laws backup Vk ->
   links_ok tnb tnk accb acck B0 -> all_small B0 -> swf B0 ->
   forall w p, Inv Vb Vk B0 w -> snolinkpar (Vb w) p ->
@@ -72,8 +85,8 @@ Proof. exact try_backup_always. Qed.
 Print Assumptions C02_instant_try_backup.
 
 Theorem C02_instant_step :
-  forall base backup Vb Vk tnb tnk accb acck rhb rhk whb whk B0,
-  base_laws base Vb Vk tnb accb rhb whb -> base_laws2 base Vb Vk tnb accb rhb whb ->
+  forall base backup Vb Vk tnb tnk accb acck rhb rhk whb whk hid anc B0,
+  base_laws base Vb Vk tnb accb rhb whb hid anc -> base_laws2 base Vb Vk tnb accb rhb whb ->
   backup_laws backup Vb Vk tnk acck rhk whk ->
   api_crash_laws base Vb -> api_crash_laws backup Vk ->
   links_ok tnb tnk accb acck B0 -> all_small B0 -> swf B0 ->
@@ -84,8 +97,8 @@ Proof. exact step_always. Qed.
 Print Assumptions C02_instant_step.
 
 Theorem C02_instant_history :
-  forall base backup Vb Vk tnb tnk accb acck rhb rhk whb whk B0,
-  base_laws base Vb Vk tnb accb rhb whb -> base_laws2 base Vb Vk tnb accb rhb whb ->
+  forall base backup Vb Vk tnb tnk accb acck rhb rhk whb whk hid anc B0,
+  base_laws base Vb Vk tnb accb rhb whb hid anc -> base_laws2 base Vb Vk tnb accb rhb whb ->
   backup_laws backup Vb Vk tnk acck rhk whk ->
   api_crash_laws base Vb -> api_crash_laws backup Vk ->
   all_small B0 ->
@@ -96,10 +109,10 @@ Proof. exact run_always. Qed.
 Print Assumptions C02_instant_history.
 
 Theorem C02_instant_rollback :
-  forall base backup Vb Vk tnb tnk accb acck rhb rhk whb whk B0,
-  base_laws base Vb Vk tnb accb rhb whb -> backup_laws backup Vb Vk tnk acck rhk whk ->
+  forall base backup Vb Vk tnb tnk accb acck rhb rhk whb whk hid anc B0,
+  base_laws base Vb Vk tnb accb rhb whb hid anc -> backup_laws backup Vb Vk tnk acck rhk whk ->
   api_crash_laws base Vb -> api_crash_laws backup Vk ->
-  links_ok tnb tnk accb acck B0 -> all_small B0 -> swf B0 ->
+  links_ok tnb tnk accb acck B0 -> all_small B0 -> swf B0 -> loc_ok hid anc B0 ->
   forall w, Inv Vb Vk B0 w ->
   forall k wh, b_rollback base backup (set_crash w (Some k)) = (MHalt, wh) ->
   recoverable Vb Vk B0 wh.
@@ -107,8 +120,8 @@ Proof. exact rollback_always. Qed.
 Print Assumptions C02_instant_rollback.
 
 Theorem C02_instant_history_rollback :
-  forall base backup Vb Vk tnb tnk accb acck rhb rhk whb whk B0,
-  base_laws base Vb Vk tnb accb rhb whb -> base_laws2 base Vb Vk tnb accb rhb whb ->
+  forall base backup Vb Vk tnb tnk accb acck rhb rhk whb whk hid anc B0,
+  base_laws base Vb Vk tnb accb rhb whb hid anc -> base_laws2 base Vb Vk tnb accb rhb whb ->
   backup_laws backup Vb Vk tnk acck rhk whk ->
   api_crash_laws base Vb -> api_crash_laws backup Vk ->
   all_small B0 ->
@@ -221,3 +234,29 @@ Theorem C02_instant_rollback_step_concrete :
   recoverable (Vp pa) (Vp pb) B0 wh.
 Proof. exact rollback_always_concrete. Qed.
 Print Assumptions C02_instant_rollback_step_concrete.
+
+(** at every instant, closed, for the DOCUMENTED layering (location inside the
+    base tree, hidden by HiddenFS: Proofs/LawsHidden.v), Rollback included *)
+From BFS Require Import Spec.ViewHidden Proofs.LawsHidden.
+
+Theorem C02_instant_documented :
+  forall pa h, prefix_ok pa -> hidden_ok h ->
+  forall B0, all_small B0 ->
+  forall w0 ops w,
+    initial (VpH pa h) (Vp (pk_h pa h)) clean clean (acc_h pa h) (acc_p (pk_h pa h)) B0 w0 ->
+    good_run (cfg_base (dcfg pa h)) (cfg_backup (dcfg pa h)) (VpH pa h) w0 ops w ->
+  forall k outs wh, run_history (dcfg pa h) ops (with_crash w0 (Some k)) = (outs, wh) ->
+  recoverable (VpH pa h) (Vp (pk_h pa h)) B0 wh.
+Proof. exact c02_instant_documented. Qed.
+Print Assumptions C02_instant_documented.
+
+Theorem C02_instant_rollback_documented :
+  forall pa h, prefix_ok pa -> hidden_ok h ->
+  forall B0, all_small B0 ->
+  forall w0 ops w,
+    initial (VpH pa h) (Vp (pk_h pa h)) clean clean (acc_h pa h) (acc_p (pk_h pa h)) B0 w0 ->
+    good_run (cfg_base (dcfg pa h)) (cfg_backup (dcfg pa h)) (VpH pa h) w0 ops w ->
+  forall k outs wh, run_history (dcfg pa h) (ops ++ [ORollback]) (with_crash w0 (Some k)) = (outs, wh) ->
+  recoverable (VpH pa h) (Vp (pk_h pa h)) B0 wh.
+Proof. exact c02_instant_rollback_documented. Qed.
+Print Assumptions C02_instant_rollback_documented.
